@@ -288,11 +288,12 @@ impl Dy {
     }
     /// exact conversion; panics on NaN / infinity (oracle misuse = machinery error)
     pub fn from_f64(x: f64) -> Dy {
-        assert!(x.is_finite(), "Dy::from_f64 of non-finite {x}");
-        if x == 0.0 {
+        let bits = x.to_bits();
+        assert!((bits >> 52) & 0x7ff != 0x7ff, "Dy::from_f64 of non-finite {x}");
+        // (bit tests, not float comparisons: a CPU in denormals-are-zero mode compares subnormals equal to zero)
+        if bits << 1 == 0 {
             return Dy::zero();
         }
-        let bits = x.to_bits();
         let neg = bits >> 63 == 1;
         let ex = ((bits >> 52) & 0x7ff) as i64;
         let frac = bits & ((1u64 << 52) - 1);
@@ -430,6 +431,46 @@ impl Dy {
         } else {
             v
         }
+    }
+    /// the f64 nearest to the exact value (ties to even; gradual underflow; overflow to infinity), computed with integer
+    /// operations only: independent of the CPU's floating-point mode (rounding direction, flush-to-zero)
+    pub fn round_f64(&self) -> f64 {
+        if self.is_zero() {
+            return 0.0;
+        }
+        let neg = self.m.is_neg();
+        let a = self.m.abs();
+        let msb = a.bit_len() as i64 - 1 + self.e;
+        let qexp = (msb - 52).max(-1074);
+        let sh = self.e - qexp;
+        let n = if sh >= 0 {
+            a.shl(sh as u64)
+        } else {
+            let k = (-sh) as u64;
+            let fl = a.shr(k);
+            let rem = a.sub(&fl.shl(k));
+            let half = Big::from_u64(1).shl(k - 1);
+            let odd = fl.mag.first().map_or(false, |w| w & 1 == 1);
+            match rem.cmp(&half) {
+                Ordering::Less => fl,
+                Ordering::Greater => fl.add(&Big::from_u64(1)),
+                Ordering::Equal => if odd { fl.add(&Big::from_u64(1)) } else { fl },
+            }
+        };
+        let (mut nn, z) = n.top64();
+        assert!(z == 0 && nn <= 1u64 << 53);
+        let mut qe = qexp;
+        if nn == 1u64 << 53 {
+            nn >>= 1;
+            qe += 1;
+        }
+        let bits = if nn < 1u64 << 52 {
+            nn
+        } else {
+            let ex = qe + 1075;
+            if ex >= 2047 { 0x7ffu64 << 52 } else { ((ex as u64) << 52) | (nn & ((1u64 << 52) - 1)) }
+        };
+        f64::from_bits(bits | if neg { 1u64 << 63 } else { 0 })
     }
     /// floor(log2(|self|)); panics on zero
     pub fn ilog2(&self) -> i64 {
@@ -606,6 +647,37 @@ pub fn q(x: f64) -> Q {
 }
 
 // ---------------------------------------------------------------- float helpers
+fn is_zero_bits(x: f64) -> bool {
+    x.to_bits() << 1 == 0
+}
+fn is_finite_bits(x: f64) -> bool {
+    (x.to_bits() >> 52) & 0x7ff != 0x7ff
+}
+/// IEEE-754 a*b (round to nearest even) for finite operands, in integer arithmetic: the reference for "correctly rounded"
+/// that does not depend on the floating-point mode the CPU happens to be in
+pub fn soft_mul(a: f64, b: f64) -> f64 {
+    assert!(is_finite_bits(a) && is_finite_bits(b));
+    let neg = (a.to_bits() ^ b.to_bits()) >> 63 == 1;
+    if is_zero_bits(a) || is_zero_bits(b) {
+        return if neg { -0.0 } else { 0.0 };
+    }
+    Dy::from_f64(a).mul(&Dy::from_f64(b)).round_f64()
+}
+/// IEEE-754 a+b (round to nearest even) for finite operands, in integer arithmetic
+pub fn soft_add(a: f64, b: f64) -> f64 {
+    assert!(is_finite_bits(a) && is_finite_bits(b));
+    let r = Dy::from_f64(a).add(&Dy::from_f64(b));
+    if r.is_zero() {
+        // exact zero sum: -0 only when both operands are -0 (or x + (-x) never gives -0 in round-to-nearest)
+        let both_neg = a.to_bits() >> 63 == 1 && b.to_bits() >> 63 == 1;
+        return if both_neg && is_zero_bits(a) && is_zero_bits(b) { -0.0 } else { 0.0 };
+    }
+    r.round_f64()
+}
+pub fn soft_sub(a: f64, b: f64) -> f64 {
+    soft_add(a, f64::from_bits(b.to_bits() ^ (1u64 << 63)))
+}
+
 pub fn succ(x: f64) -> f64 {
     // next float toward +inf (x finite or -inf)
     if x.is_nan() || x == f64::INFINITY {
@@ -709,6 +781,17 @@ pub fn self_test() -> Result<(), String> {
     for &a in &fl {
         ck!(Dy::from_f64(a).to_f64().to_bits() == (if a == 0.0 { 0.0f64 } else { a }).to_bits(), "Dy round trip {a:e}");
         ck!(Q::from_f64(a).to_f64() == a, "Q round trip {a:e}");
+    }
+    // integer-only rounding against the hardware (this self-test runs first, on the main thread, in the default mode)
+    let sv = [0.0, -0.0, 1.0, -1.0, 0.1, 3.0, 1.0 + f64::EPSILON, 1.0 - f64::EPSILON / 2.0, 5e-324, -5e-324, 1.5e-323, 2.2250738585072014e-308, 2.225073858507201e-308,
+        -1e-310, 3e-308, 1e-200, -1e-160, 1e154, 1.3407807929942597e154, 1e300, f64::MAX, -f64::MAX, 0.5, 0.75, 1e-17, 9007199254740993.0, 4503599627370497.5];
+    for &a in &sv {
+        ck!(Dy::from_f64(a).round_f64().to_bits() == (a + 0.0).to_bits() || a.to_bits() == (-0.0f64).to_bits(), "round_f64 round trip {a:e}");
+        for &b in &sv {
+            ck!(soft_mul(a, b).to_bits() == (a * b).to_bits(), "soft_mul {a:e} {b:e}: {:e} vs {:e}", soft_mul(a, b), a * b);
+            ck!(soft_add(a, b).to_bits() == (a + b).to_bits(), "soft_add {a:e} {b:e}: {:e} vs {:e}", soft_add(a, b), a + b);
+            ck!(soft_sub(a, b).to_bits() == (a - b).to_bits(), "soft_sub {a:e} {b:e}: {:e} vs {:e}", soft_sub(a, b), a - b);
+        }
     }
     for &a in &[0.5, 3.0, -7.25, 1024.0, 0.1] {
         for &b in &[0.25, -3.0, 100.5, 0.1] {
